@@ -13,7 +13,7 @@ RULE = ("configurations: matrix sizes n=2..5 x batch shapes (),(1,),(3,),(63,),(
         "(regular, singular, rank-deficient), polynomials of degree 1-3 built from chosen roots (simple, double, triple, complex pairs, any "
         "leading coefficient, leading zeros), vector pairs on {-2..2}^n and random with every axis form; plus every kernel call made by the "
         "repository's tests. Each judged batch position is compared with exact rational det/adjugate/rank; non-trivial = matrix or vector "
-        "with at least two entries not in {0,1,-1}; distinct by operand digest. A raising is_multiple call is judged for numeric finite arrays that broadcast and a valid axis (axis 0, -2, middle axes and tuples of axes are part of the workload).")
+        "with at least two entries not in {0,1,-1}; distinct by operand digest. A raising is_multiple call is judged for numeric finite arrays that broadcast and a valid axis (axis 0, -2, middle axes and tuples of axes are part of the workload). roots on integer cubics given by their coefficients, among them nearly depressed ones (3ac - b^2 small against b^2).")
 SHARDS = (8, 16)
 REQUIRED = ["det", "adjugate", "inv", "null_space", "orth", "roots", "is_multiple", "hat_matrix", "matmul", "outer"]
 ASSUMPTIONS = ["Fraction arithmetic exact", "numpy.roots / einsum used as independent references are correct", "LAPACK singular-matrix behaviour not judged",
@@ -657,6 +657,16 @@ def g_roots(ctx, rng, i):
     # leading zeros: the same polynomial padded to length 4 / 3
     if len(p) < 4 and i % 3 == 0:
         u.roots(np.concatenate([np.zeros(4 - len(p), dtype=p.dtype), p]))
+    # cubics given by their coefficients (pencil determinants of conics look like this), among them nearly "depressed" ones
+    # (3ac - b^2 small against b^2: the two cube roots of Cardano's formula differ by orders of magnitude)
+    a_ = int(gen.pick(rng, [1, -1, 2, -215, 37, -82]))
+    b_ = int(rng.integers(-700, 701))
+    near = int(round(b_ * b_ / (3 * a_))) + int(gen.pick(rng, [0, 1, -1, 2, -3, 40]))
+    for c_ in (near, int(rng.integers(-700, 701))):
+        d_ = int(rng.integers(-300, 301))
+        if d_ != 0:
+            u.roots(np.array([a_, b_, c_, d_]))
+            u.roots(np.array([a_, b_, c_, d_], dtype=float) * 0.5)
 
 
 LM3 = gen.lattice(3, 2, zero=True)
